@@ -169,3 +169,20 @@ V("c02-ground-platform-branch-swapped", "C02", "violation", None, edits=[(OP, "i
 V("c02-n-reorder-range-checks", "C02", "pass", edits=[(SB, "        # Early exit if target not in sensor's minimum range\n        if self.minimum_range is not None and getRange(slant_range_sez) < self.minimum_range:\n            return False, Explanation.MINIMUM_RANGE\n\n", ""), (SB, "        # Early exit if a Line of Sight doesn't exist\n", "        if self.minimum_range is not None and getRange(slant_range_sez) < self.minimum_range:\n            return False, Explanation.MINIMUM_RANGE\n\n        # Early exit if a Line of Sight doesn't exist\n")])
 V("c02-n-swapped-sides", "C02", "pass", edits=[(SB, "getRange(slant_range_sez) > self.maximum_range:", "self.maximum_range < getRange(slant_range_sez):")])
 V("c02-n-range-local", "C02", "pass", edits=[(SB, "        # Early exit if target not in sensor's minimum range\n        if self.minimum_range is not None and getRange(slant_range_sez) < self.minimum_range:", "        rng = getRange(slant_range_sez)\n        if self.minimum_range is not None and rng < self.minimum_range:")])
+
+# ------------------------------------------------------------------------------------ C19
+IM = "dynamics/importer.py"
+ID = "data/importer_database.py"
+V("c19-revert-F8-count-compare", "C19", "violation", "C19.R2", revert="347daba")
+V("c19-revert-F12-missing-attribute", "C19", "violation", "C19.R4", revert="d098a73")
+V("c19-guard-and-count", "C19", "violation", "C19.R2", edits=[(IM, "        if missing_ids := registerd_ids - retrieved_ids:", "        if (missing_ids := registerd_ids - retrieved_ids) and len(current_ephemerides) < len(self._registrants):")])
+V("c19-guard-direction-reversed", "C19", "violation", "C19.R2", edits=[(IM, "        if missing_ids := registerd_ids - retrieved_ids:", "        if missing_ids := retrieved_ids - registerd_ids:")])
+V("c19-override-deleted", "C19", "violation", "C19.R1", edits=[(ID, "    def bulkSave(self, data):\n        \"\"\"Override :class:`.DataInterface` implementation.\n\n        Raises:\n            NotImplementedError: this is a read-only database\n        \"\"\"\n        raise NotImplementedError(\"ImporterDatabase is read-only, so inserting data is prohibited\")\n\n", "")])
+V("c19-run-path-calls-private-writer", "C19", "violation", "C19.R1", edits=[(IM, "        current_ephemerides = self._importer_db.getData(query)\n", "        current_ephemerides = self._importer_db.getData(query)\n        self._importer_db._insertData(*current_ephemerides)\n")])
+V("c19-getdata-commits", "C19", "violation", "C19.R1", edits=[("data/data_interface.py", "                retval = query.with_session(cur_session).all()\n", "                retval = query.with_session(cur_session).all()\n                cur_session.commit()\n")])
+V("c19-import-into-wrong-registrant", "C19", "violation", "C19.R3", edits=[(IM, "                self._registrants[ephem.agent_id].importState(ephem)", "                next(iter(self._registrants.values())).importState(ephem)")])
+V("c19-registrant-not-removed", "C19", "violation", "C19.R3", edits=[(IM, "                del self._registrants[ephem.agent_id]\n", "")])
+V("c19-importstate-keeps-time", "C19", "violation", "C19.R3", edits=[("agents/target_agent.py", "        self._time = JulianDate(ephemeris.julian_date).convertToScenarioTime(\n            self.julian_date_start,\n        )\n", "        self._time = self._time + self._dt_step\n")])
+V("c19-imported-obs-not-saved", "C19", "violation", "C19.R4", edits=[(CE, "            self.saveObservations(self.loadImportedObservations(datetime_epoch))", "            self.loadImportedObservations(datetime_epoch)")])
+V("c19-metadata-from-first-sensor", "C19", "violation", "C19.R4", edits=[(CE, "sensor_agent = ray.get(self._sensor_store[observation.sensor_id])", "sensor_agent = ray.get(self._sensor_store[self.sensor_list[0]])")])
+V("c19-n-subset-test", "C19", "pass", edits=[(IM, "        if missing_ids := registerd_ids - retrieved_ids:", "        missing_ids = registerd_ids.difference(retrieved_ids)\n        if len(missing_ids) > 0:")])
